@@ -29,6 +29,8 @@ ASSUMPTIONS = [
 BUDGET = {'quick': dict(examples=3200, shards=16, seconds=70),
           'thorough': dict(examples=100000, shards=16, seconds=1200)}
 
+# the joined resources have names with a '.'; bystanders have names that differ only at that character
+SRC, TGT = 's.rc', 't.gt'
 KEY_STR = ['a', 'b', 'a:b', 'c', 'b:c', '', 'None', 'é']
 KEY_INT = [0, 1, 2, 10]
 # number keys that are equal as numbers but render differently ('1' / '1.0' / '1.00'): different keys by the documented rule
@@ -397,12 +399,12 @@ def check(case, ctx):
     pkg = []
     for pos in ('front',):
         if pos in c['bystanders']:
-            pkg.append({'name': 'by_front', 'fields': [{'name': 'q', 'type': 'integer'}], 'rows': [{'q': 1}, {'q': 2}]})
-    pkg.append({'name': 'src', 'fields': c['sfields'], 'rows': c['srows']})
+            pkg.append({'name': 's-rc', 'fields': [{'name': 'q', 'type': 'integer'}], 'rows': [{'q': 1}, {'q': 2}]})
+    pkg.append({'name': SRC, 'fields': c['sfields'], 'rows': c['srows']})
     if 'middle' in c['bystanders']:
-        pkg.append({'name': 'by_mid', 'fields': [{'name': 'q', 'type': 'integer'}], 'rows': [{'q': 3}]})
+        pkg.append({'name': 't-gt', 'fields': [{'name': 'q', 'type': 'integer'}], 'rows': [{'q': 3}]})
     if not c['dedup']:
-        pkg.append({'name': 'tgt', 'fields': c['tfields'], 'rows': c['trows']})
+        pkg.append({'name': TGT, 'fields': c['tfields'], 'rows': c['trows']})
     if 'end' in c['bystanders']:
         pkg.append({'name': 'by_end', 'fields': [{'name': 'q', 'type': 'integer'}], 'rows': []})
     desc = gen.descriptor_of(pkg)
@@ -411,9 +413,9 @@ def check(case, ctx):
     for t, (src, agg, _) in specs.items():
         classes.append('agg:' + agg)
     if c['dedup']:
-        step = dataflows.join_with_self('src', copy.deepcopy(c['skey']), copy.deepcopy(c['specs']))
+        step = dataflows.join_with_self(SRC, copy.deepcopy(c['skey']), copy.deepcopy(c['specs']))
     else:
-        step = dataflows.join('src', copy.deepcopy(c['skey']), 'tgt', copy.deepcopy(c['tkey']),
+        step = dataflows.join(SRC, copy.deepcopy(c['skey']), TGT, copy.deepcopy(c['tkey']),
                               fields=copy.deepcopy(c['specs']), mode=c['mode'], source_delete=c['source_delete'])
     try:
         out_desc, out = run_steps([step], desc, tables)
@@ -423,16 +425,16 @@ def check(case, ctx):
     if c['dedup']:
         exp_names = list(names_in)
     else:
-        exp_names = [n for n in names_in if not (n == 'src' and c['source_delete'])]
+        exp_names = [n for n in names_in if not (n == SRC and c['source_delete'])]
     got_names = [r['name'] for r in out_desc['resources']]
     if got_names != exp_names or len(out) != len(exp_names):
         raise Violation('resources', {'got': got_names, 'expected': exp_names, 'streams': len(out)})
     for i, n in enumerate(got_names):
-        if n.startswith('by_') or (n == 'src' and not c['dedup']):
+        if (n.startswith('by_') or n in ('s-rc', 't-gt')) or (n == SRC and not c['dedup']):
             src_rows = pkg[names_in.index(n)]['rows']
             if out[i] != src_rows:
                 raise Violation('bystander-or-source-rows-changed', {'resource': n})
-    ti = got_names.index('src' if c['dedup'] else 'tgt')
+    ti = got_names.index(SRC if c['dedup'] else TGT)
     got = out[ti]
     declared = [f for f, _ in schema_sig(out_desc, ti)]
     for r in got:
